@@ -580,6 +580,7 @@ func init() {
 		ruleHeaderBeforeRemove(r, "header-before-remove")
 		ruleDeletedCheck(r)
 		ruleMergeFraming(r)
+		ruleSpanPair(r)
 		ruleRescanAppliesAll(r)
 		tmp := newReport(r.E, r.Property)
 		ruleSnapshot(tmp)
